@@ -235,7 +235,7 @@ def parse_operand(s):
     raise MirSyntaxError('bad operand %r' % s)
 
 
-_cast_re = re.compile(r'^(.*) as (.*) \((\w+(?:\([^()]*\))?)\)$', re.S)
+_cast_re = re.compile(r'^(.*) as (.*) \((\w+(?:\((?:[^()]|\([^()]*\))*\))?)\)$', re.S)
 
 
 def parse_rvalue(s):
@@ -274,6 +274,10 @@ def parse_rvalue(s):
         if m and _balanced(m.group(1)):
             return ('cast', parse_operand(m.group(1)), m.group(2).strip(), m.group(3))
         return ('use', parse_operand(s))
+    m = _cast_re.match(s)
+    if m and m.group(3).startswith('PointerCoercion(ReifyFnPointer') and _balanced(m.group(1)):
+        # `path::to::function as fn(..) -> .. (PointerCoercion(ReifyFnPointer(Safe), Implicit))`: a fn item as a value
+        return ('cast', parse_operand('const ' + m.group(1).strip()), m.group(2).strip(), m.group(3))
     # aggregates
     if s.startswith('('):
         j = _match_close(s, 0)
@@ -525,6 +529,13 @@ def parse_file(path):
                             cur.args.append((int(am.group(1)), am.group(2)))
                             cur.locals[int(am.group(1))] = am.group(2)
                     cur.ret = m.group(3) or '()'
+                    continue
+                am = re.match(r'^(alloc\d+) \(static: ([^,]+),', line)
+                if am:
+                    # `const {alloc7: &T}` refers to this static; its initialiser has a MIR body of its own
+                    f = Function('@alloc:' + am.group(1), 'const')
+                    f.literal = 'static:' + am.group(2)
+                    fns.append(f)
                     continue
                 if line.startswith('const ') or line.startswith('static '):
                     m = _promoted_head.match(line) or _const_head.match(line)
